@@ -207,12 +207,73 @@ def gen_case(rng, scheme=None, n=None, idx=None, vec=None, with_ds=None, smax_ca
     return case
 
 
+DEFAULT_STEP = {"fd": 1e-6, "cd": 1e-6, "cs": 1e-20}
+
+
+def gen_rounded_case(rng) -> dict[str, Any]:
+    """Rounded stream: decimal points and steps (incl. the default steps), compared up to explicit rounding terms."""
+    scheme = rng.pick(["fd", "cd", "cs"])
+    n = rng.pick([1, 2, 3, 4])
+    m = rng.pick([1, 2])
+    deg = rng.pick([1, 2, 3])
+    polys = gen_polys(rng, n, m, deg)
+    k = rng.randint(0, n)
+    idx = rng.sample(range(n), k)
+    via = rng.pick(["default", "arg", "arg", "ctor"])
+    if via == "default":
+        hs = [DEFAULT_STEP[scheme]] * n
+        vec = False
+    else:
+        vec = via == "arg" and rng.chance(0.4)
+        pool = [1e-20, 1e-30, 1e-12, 1e-8] if scheme == "cs" else [1e-3, 1e-4, 1e-5, 1e-6, 1e-7, 3e-5]
+        hs = [rng.pick(pool) for _ in range(n)]
+        if not vec:
+            hs = [hs[0]] * n
+    ds = None
+    x = []
+    if rng.chance(0.5):
+        normalize = rng.chance(0.5)
+        lbs, ubs = [], []
+        for c in range(n):
+            lb = Fraction(rng.randint(-16, 0), 4)
+            ub = lb + Fraction(rng.pick([1, 2, 4, 8]))
+            lb_inf, ub_inf = rng.chance(0.1), rng.chance(0.1)
+            lbs.append(None if lb_inf else lb)
+            ubs.append(None if ub_inf else ub)
+            normed = normalize and not lb_inf and not ub_inf
+            wl, wu = (Fraction(0), Fraction(1)) if normed else (lb, ub)
+            h = F(hs[c])
+            r = rng.random()
+            if r < 0.25 and not ub_inf:
+                v = float(wu)
+            elif r < 0.4 and not lb_inf:
+                v = float(wl)
+            elif r < 0.55 and not ub_inf:
+                v = float(wu - h / 2)
+            elif r < 0.65 and not lb_inf:
+                v = float(wl + h / 2)
+            else:
+                # at least two steps inside the bounds
+                v = round(float(wl + (wu - wl) * Fraction(rng.randint(2, 98), 100)), 3)
+                v = min(max(v, float(wl + 2 * h) + 0.001), float(wu - 2 * h) - 0.001)
+            x.append(F(v))
+        ds = {"lb": [None if v is None else rat(v) for v in lbs], "ub": [None if v is None else rat(v) for v in ubs], "normalize": normalize}
+    else:
+        for _ in range(n):
+            x.append(Fraction(0) if rng.chance(0.2) else F(round(rng.uniform(-4, 4), 3)))
+    return {
+        "scheme": scheme, "n": n, "m": m, "polys": polys, "x": [rat(v) for v in x], "idx": idx,
+        "step": [rat(F(h)) for h in hs] if vec else rat(F(hs[0])), "ds": ds, "parallel": False,
+        "scalar_out": False, "step_via": via, "stream": "rounded",
+    }
+
+
 def exact_ok(case) -> bool:
     """All function values at x and x ± h e_c (c differentiated) are exactly float64 (not needed for cs)."""
     x = frl(case["x"])
     if not all(is_f64(v) for v in x):
         return False
-    if case["scheme"] == "cs":
+    if case["scheme"] == "cs" or case.get("stream") == "rounded":
         return True
     pts = [x]
     for c in eff_idx(case):
@@ -288,6 +349,8 @@ def run_impl(case, parallel: str | None = None) -> dict[str, Any]:
     from gemseo.utils.derivatives.complex_step import ComplexStep
     from gemseo.utils.derivatives.finite_differences import FirstOrderFD
 
+    if case.get("level") == "problem":
+        return run_problem_impl(case)
     cls = {"fd": FirstOrderFD, "cd": CenteredDifferences, "cs": ComplexStep}[case["scheme"]]
     log_path = None
     log_fd = None
@@ -306,7 +369,10 @@ def run_impl(case, parallel: str | None = None) -> dict[str, Any]:
     step = np.array([float(Fraction(s)) for s in st]) if isinstance(st, list) else float(Fraction(st))
     out: dict[str, Any] = {}
     try:
-        if case.get("step_via") == "ctor" and not isinstance(st, list):
+        if case.get("step_via") == "default":
+            approx = cls(fn, **kwargs)
+            jac = approx.f_gradient(np.array([float(Fraction(v)) for v in case["x"]]), x_indices=list(case["idx"]))
+        elif case.get("step_via") == "ctor" and not isinstance(st, list):
             approx = cls(fn, step=step, **kwargs)
             jac = approx.f_gradient(np.array([float(Fraction(v)) for v in case["x"]]), x_indices=list(case["idx"]))
         else:
@@ -334,6 +400,51 @@ def _calls(fn, log_fd, log_path):
         return read_call_log(log_path)
     finally:
         os.unlink(log_path)
+
+
+def run_problem_impl(case) -> dict[str, Any]:
+    """The same case through OptimizationProblem(differentiation_method=...): the objective is a physical-space
+    function, `preprocess_functions(is_function_input_normalized=normalize)` builds the approximator with the design
+    space; the Jacobian is evaluated at the working-space point.  Call points are recorded in the working space
+    (exact inverse of the normalisation), so oracle and model are those of the approximator level."""
+    from gemseo.algos.optimization_problem import OptimizationProblem
+    from gemseo.core.mdo_functions.mdo_function import MDOFunction
+
+    ds = case["ds"]
+    space = make_design_space(case)
+    premap = []
+    for lb, ub in zip(ds["lb"], ds["ub"]):
+        if ds["normalize"] and lb is not None and ub is not None:
+            premap.append((Fraction(lb), Fraction(ub) - Fraction(lb)))
+        else:
+            premap.append(None)
+    fn = PolyFunction(case["polys"], premap=premap)
+    out: dict[str, Any] = {}
+    try:
+        pb = OptimizationProblem(
+            space, differentiation_method=MODE[case["scheme"]], differentiation_step=float(Fraction(case["step"]))
+        )
+        pb.objective = MDOFunction(fn, "f")
+        # as the optimisation libraries do: the design space holds a current value, complex for the complex step
+        phys = [
+            float(Fraction(v)) if pm is None else float(pm[0] + Fraction(v) * pm[1])
+            for v, pm in zip(case["x"], premap)
+        ]
+        space.set_current_value(np.array(phys))
+        if case["scheme"] == "cs":
+            space.to_complex()
+        pb.preprocess_functions(is_function_input_normalized=bool(ds["normalize"]))
+        jac = pb.objective.jac(np.array([float(Fraction(v)) for v in case["x"]]))
+    except Exception as e:  # noqa: BLE001
+        out["exc"] = common.exc_class(e)
+        out["exc_msg"] = repr(e)[:160]
+        out["calls"] = list(fn.calls)
+        return out
+    out["J"] = np.atleast_2d(np.asarray(jac))
+    out["calls"] = list(fn.calls)
+    out["inexact"] = fn.inexact
+    out["fmax"] = fn.fmax
+    return out
 
 
 def jac_matrix(case, J: np.ndarray):
@@ -386,6 +497,7 @@ def compare(case, impl, ans: str) -> tuple[bool, bool, str]:
     if M is None:
         return False, False, f"Jacobian shape {impl['J'].shape} is not the model's ({case['m']}, {len(cols)})"
     exact = True
+    rounded = case.get("stream") == "rounded"
     hmin = min(abs(step_of(case, c)) for c in range(case["n"]))
     slack = Fraction(1, 2**960)  # float64 underflow (complex step with steps down to 2^-300)
     if impl.get("inexact"):
@@ -398,12 +510,56 @@ def compare(case, impl, ans: str) -> tuple[bool, bool, str]:
             d = abs(F(iv) - mv)
             if d != 0:
                 exact = False
-                if not d <= TOL * abs(mv) + slack:
+                extra = rounding_slack(case, j, eff_idx(case)[k]) if rounded else Fraction(0)
+                if not d <= TOL * abs(mv) + slack + extra:
                     return False, False, f"entry [{j},{k}]: implementation {F(iv)}, model {mv}"
     icalls = sorted(impl["calls"])
+    if rounded:
+        if not calls_close(icalls, mcalls):
+            return False, False, f"call points differ beyond rounding: implementation {fmt_calls(icalls)[:300]} model {fmt_calls(mcalls)[:300]}"
+        return True, False, ""
     if icalls != mcalls:
         return False, exact, f"call points differ: implementation {fmt_calls(icalls)[:300]} model {fmt_calls(mcalls)[:300]}"
     return True, exact, ""
+
+
+def calls_close(a, b) -> bool:
+    """Rounded stream: call points equal up to one rounding of x ± h (and of x*h for the complex step)."""
+    if len(a) != len(b):
+        return False
+    eps = Fraction(1, 2**51)
+    used = [False] * len(b)
+    for re, im in a:
+        hit = False
+        for t, (re2, im2) in enumerate(b):
+            if used[t]:
+                continue
+            if all(abs(u - v) <= eps * (abs(v) + abs(u)) for u, v in zip(re, re2)) and all(
+                abs(u - v) <= eps * (abs(v) + abs(u)) for u, v in zip(im, im2)
+            ):
+                used[t] = True
+                hit = True
+                break
+        if not hit:
+            return False
+    return True
+
+
+def rounding_slack(case, j: int, c: int) -> Fraction:
+    """Rounded stream: floating-point error of one quotient, from the property's 'numerically safe' reading:
+    rounding of x ± h moves the evaluation point (sup|f'| * eps*(|x|+|h|) / |h|), the function values are rounded
+    once each and subtracted (cancellation, eps*sup|f| / |h|), the division rounds once."""
+    x = frl(case["x"])
+    h = abs(step_of(case, c))
+    p = case["polys"][j]
+    d1 = poly_partial(p, c)
+    if case["scheme"] == "cs":
+        D = abs(eval_poly(d1, x))
+        return Fraction(1, 2**48) * (1 + D)
+    s0 = poly_abs_sup(p, x, c, 2 * h)
+    s1 = poly_abs_sup(d1, x, c, 2 * h)
+    eps = Fraction(1, 2**50)
+    return (s1 * eps * (abs(x[c]) + h) + eps * s0) / h + eps * (1 + s1)
 
 
 def fmt_calls(calls) -> str:
@@ -473,6 +629,11 @@ def oracle(case, impl, impl_par=None) -> list[tuple[str, str]]:
                     done = True
                     break
                 D, allowed, which = allowed_bound(case, j, c)
+                if case.get("stream") == "rounded":
+                    allowed += rounding_slack(case, j, c)
+                elif impl.get("inexact") and sch != "cs":
+                    # a function value was rounded: cancellation error 2*eps*|f|/h of the quotient
+                    allowed += Fraction(1, 2**49) * impl["fmax"] / abs(step_of(case, c))
                 err = abs(F(v) - D)
                 if not err <= allowed:
                     bad.append((
@@ -512,7 +673,7 @@ def oracle(case, impl, impl_par=None) -> list[tuple[str, str]]:
 def simplifications(case):
     """Smaller variants of a case (each a full case)."""
     n, m = case["n"], case["m"]
-    if case.get("ds"):
+    if case.get("ds") and case.get("level") != "problem":
         c = dict(case)
         c["ds"] = None
         yield c
@@ -586,7 +747,7 @@ def simplifications(case):
 
 def fails_with(case, key: str, par: str | None = None) -> bool:
     try:
-        if not in_scope(case):
+        if not in_scope(case) or not exact_ok(case):
             return False
         impl = run_impl(case)
         ip = run_impl(case, par) if par else None
@@ -596,6 +757,8 @@ def fails_with(case, key: str, par: str | None = None) -> bool:
 
 
 def shrink(case, key: str, par: str | None = None, budget: int = 150):
+    if os.environ.get("C16_NOSHRINK"):
+        return case
     cur = case
     calls = 0
     progress = True
@@ -1008,7 +1171,7 @@ def check_cases(res: Result, cases: list[dict[str, Any]], rng, scope: bool = Tru
             res.extra["failing_input_searches"] = searches + 1
             found = False
             for nb in neighbours(case, rng):
-                if not in_scope(nb):
+                if not in_scope(nb) or not exact_ok(nb):
                     continue
                 i2 = run_impl(nb)
                 b2 = oracle(nb, i2)
@@ -1148,6 +1311,20 @@ def run(ctx) -> Result:
     batch = [gen_exact_case(rng, res) for _ in range(nrand)]
     for i in range(0, len(batch), 2000):
         check_cases(res, batch[i : i + 2000], rng)
+    # the same approximators reached through OptimizationProblem(differentiation_method=...), physical-space
+    # function, normalised or not: bound safety where it matters in practice
+    pcs = []
+    for _ in range(1500 if ctx.thorough else 150):
+        c = gen_exact_case(rng, res, with_ds=True, vec=False, idx=[])
+        c.update(level="problem", scalar_out=False, step_via="arg")
+        pcs.append(c)
+    check_cases(res, pcs, rng)
+    res.count("level=problem", len(pcs))
+    # rounded stream: decimal points/steps and the default steps
+    rcs = [gen_rounded_case(rng) for _ in range(3000 if ctx.thorough else 300)]
+    rcs = [c for c in rcs if in_scope(c)]
+    check_cases(res, rcs, rng)
+    res.count("stream=rounded", len(rcs))
     # parallel == serial
     npar = 600 if ctx.thorough else 80
     check_cases(res, [gen_exact_case(rng, res) for _ in range(npar)], rng, True, "process")
